@@ -61,6 +61,9 @@ class BTSString:
     @staticmethod
     def write(size: int, data: str) -> bytes:
         dat = data.encode("windows-1252") + b"\x00"
+        if b"\x00" in dat[:-1]:
+            # the field is NUL terminated: the rest of the text would be lost
+            raise ValueError("The string contains a NUL character")
         padding = b"\x00" * (size - len(dat))
         if len(dat) > size:
             raise ValueError(
